@@ -159,11 +159,16 @@ def _c03(prop, tier, replay_path):
         with open(replay_path) as fh:
             kind = json.load(fh).get("kind")
         if kind == "TestVerifNhsim":
+            with open(replay_path) as fh:
+                mode = json.load(fh).get("batch", {}).get("mode")
+            if mode == "staleview":
+                return nhfamily.check_c03_staleview(prop, tier, replay_path)
             return nhfamily.check_c03_nodes(prop, tier, replay_path)
         return raftfamily.check(prop, tier, replay_path)
     a = raftfamily.check(prop, tier, None)
     b = nhfamily.check_c03_nodes(prop, tier, None)
-    return 1 if 1 in (a, b) else max(a, b)
+    c = nhfamily.check_c03_staleview(prop, tier, None)
+    return 1 if 1 in (a, b, c) else max(a, b, c)
 
 
 CHECKS["C03"] = _c03
